@@ -1,7 +1,8 @@
 (* Properties_C10.v -- C10: clamping makes every coordinate safe.
    Only the property theorems, closed by [exact]. *)
 From Coq Require Import ZArith List Bool.
-From Covfie Require Import Layout Stack StackProofs FloatOps StackFloat StackSafe.
+From Coq Require Import Reals.
+From Covfie Require Import Layout Stack StackProofs FloatOps StackFloat StackSafe ClampAbove.
 Import ListNotations.
 Local Open Scope Z_scope.
 
@@ -51,6 +52,30 @@ Theorem C10_nearest_over_clamp_safe : forall (t tc : sty) (sizes lo hi : list Z)
   exists i v, nearest_at flocq_ops tcoord t (clamped_storage t tc sizes lo hi m data) c = Some ([i], v) /\ in_storage sizes i.
 Proof. exact nearest_over_clamp_safe. Qed.
 
+(* "clamp placed above an interpolator": clamp< linear< strided< array > > > with a floating box
+   0 <= lo_k <= hi_k < extent_k - 1 (finite bounds): EVERY coordinate that is not NaN, infinities included,
+   is answered, and each of the 2^N cells read lies inside the storage *)
+Theorem C10_clamp_over_linear_safe : forall (tcf tidx : sty) (sizes lo hi : list Z) (m : nat) (data : list Z),
+  isfl tcf -> is_float tidx = false -> length lo = length sizes -> length hi = length sizes ->
+  Forall2 (fun '(l, h) s => ffin tcf l /\ ffin tcf h /\ (0 <= fval tcf l <= fval tcf h)%R /\ (fval tcf h < IZR s - 1)%R)
+          (combine lo hi) sizes ->
+  (forall s z, In s sizes -> 0 <= z < s -> sty_range tidx z = true /\ wrap_sty tidx z = z) ->
+  (forall z, 0 <= z < zprod sizes -> wrap_sty tidx z = z) ->
+  forall tv (c : list Z), length c = length sizes -> Forall (notnan tcf) c ->
+  exists tr vs, clamp_at flocq_ops tcf lo hi (interpolated tcf tidx sizes m data tv) c = Some (tr, vs) /\
+                Forall (in_storage sizes) tr.
+Proof. exact clamp_over_linear_safe. Qed.
+(* what the float side rests on: std::clamp under the IEEE order lands in [lo, hi] for every non-NaN argument *)
+Theorem C10_clamp_float_range : forall t v lo hi, isfl t -> notnan t v -> ffin t lo -> ffin t hi -> (fval t lo <= fval t hi)%R ->
+  ffin t (clamp1 flocq_ops t v lo hi) /\ (fval t lo <= fval t (clamp1 flocq_ops t v lo hi) <= fval t hi)%R.
+Proof. exact clamp1_float. Qed.
+
+(* non-vacuity: +infinity and -infinity as coordinates of a 3 x 4 float field, box [0,1.5] x [0,2.75] *)
+Example C10_clamp_over_linear_runs :
+  exists vs, clamp_at flocq_ops F32 [0; 0] [1069547520; 1076887552] (interpolated F32 U64 [3; 4] 1 (map Z.of_nat (seq 0 12)) F32) [2139095040; 4286578688]
+             = Some ([4; 5; 8; 9], vs).
+Proof. eexists. vm_compute. reflexivity. Qed.
+
 (* non-vacuity: a 3 x 4 field of floats, box [0,2] x [0,3], the coordinate (1e6, 2.5): far outside on the first axis;
    the four neighbour queries (1e6|1e6+1, 2|3) are clamped to (2, 2|3), i.e. cells 10, 11, 10, 11 of the 12 *)
 Example C10_linear_over_clamp_runs :
@@ -60,5 +85,6 @@ Proof. eexists. vm_compute. reflexivity. Qed.
 
 Print Assumptions C10_clamp_in_box.
 Print Assumptions C10_linear_over_clamp_safe.
+Print Assumptions C10_clamp_over_linear_safe.
 Print Assumptions C10_order_irreflexive.
 Print Assumptions C10_clamp_safe_over_array.
